@@ -25,6 +25,62 @@ pub struct CompileCase {
     pub cross_process: bool,
     #[serde(default)]
     pub family: String,
+    /// `program` is prefix + body x rounds + suffix: the growth of the compiled forms with the round count is checked too
+    #[serde(default)]
+    pub chain: Option<Chain>,
+}
+
+#[derive(Serialize, Deserialize, Clone, Debug)]
+pub struct Chain {
+    pub prefix: String,
+    pub body: String,
+    pub suffix: String,
+    pub rounds: u32,
+}
+
+impl Chain {
+    pub fn program(&self, rounds: u32) -> String {
+        format!("{}{}{}", self.prefix, self.body.repeat(rounds as usize), self.suffix)
+    }
+}
+
+/// Size of IR + both bytecodes, in characters of their printed form.
+fn compiled_size<C: CellType>(program: &str, level: u32) -> Result<usize, String> {
+    let irp = ir::Program::<C>::parse(program).map_err(|e| format!("{:?}", e.kind))?.optimize(level);
+    Ok(format!("{irp:?}").len() + format!("{:?}", bc::CodeGen::translate(&irp, 2, true)).len() + format!("{:?}", bc::CodeGen::translate(&irp, 11, false)).len())
+}
+
+/// Growth of the compiled size with the number of rounds. The round count is raised step by step
+/// (2, 3, 4, 5, 6, 7, 8, 10, 12, 15, 18, 22, 27, 33, 41 ...; never past an output of 4 MiB or the case's
+/// round count), so that an exponential family is recognised while it is still cheap. Between the
+/// last two points the local degree d = ln(s_b / s_a) / ln(b / a) is computed (4 KiB added to both
+/// sizes against constant offsets): polynomial growth of degree k gives d <= k at every scale;
+/// d > 8 on an output of at least 1 MiB is reported (2^m reaches d = 0.69 m, i.e. d > 8 from 12 rounds on).
+fn chain_growth<C: CellType>(ch: &Chain, level: u32) -> Result<Info, (String, String)> {
+    let mut pts: Vec<(u32, usize)> = vec![];
+    let mut m = 2u32.min(ch.rounds.max(1));
+    loop {
+        let s = compiled_size::<C>(&ch.program(m), level).map_err(|e| ("create".to_string(), e))?;
+        pts.push((m, s));
+        if s > 4 * 1024 * 1024 || m >= ch.rounds {
+            break;
+        }
+        m = (m + (m / 4).max(1)).min(ch.rounds);
+    }
+    let mut info = Info::new(false);
+    info.classes.push("chain:growth-measured".into());
+    if pts.len() >= 2 {
+        let (a, sa) = pts[pts.len() - 2];
+        let (b, sb) = pts[pts.len() - 1];
+        let d = (((sb + 4096) as f64) / ((sa + 4096) as f64)).ln() / ((b as f64) / (a as f64)).ln();
+        info.maxima.push(("max-chain-local-degree-x100".into(), (d.max(0.0) * 100.0) as u64));
+        info.maxima.push(("max-chain-compiled-size".into(), sb as u64));
+        if sb >= 1024 * 1024 && d > 8.0 {
+            let series = pts.iter().map(|(m, s)| format!("{m} rounds: {s}")).collect::<Vec<_>>().join(", ");
+            return Err(("blow-up".into(), format!("compiled size (printed IR + both bytecodes, i{} -O{level}) grows faster than any reasonable polynomial in the number of rounds of a {} byte round body: {series}; local degree {:.1} between the last two points", C::BITS, ch.body.len(), d)));
+        }
+    }
+    Ok(info)
 }
 
 /// Everything the library can print for (source, width, level): IR, both
@@ -224,14 +280,39 @@ impl Property for C13 {
         }
     }
     fn strategy(&self, _tier: Tier) -> BoxedStrategy<Self::Gen> {
-        (bf::prog(Mix { raw: 25, strukt: 30, div: 8, wide: 15, big: 2, roam: 8, deep: 12, commented: 3, hibits: 2 }), bf::input_bytes(), bf::width(), 0u32..4, proptest::collection::vec(bf::raw_tokens(4, 60), 0..4), any::<u8>()).boxed()
+        (prop_oneof![12 => bf::prog(Mix { raw: 25, strukt: 30, div: 8, wide: 15, big: 2, roam: 8, deep: 12, commented: 3, hibits: 2 }), 1 => bf::chain_prog().prop_map(ProgAst::Chain)], bf::input_bytes(), bf::width(), 0u32..4, proptest::collection::vec(bf::raw_tokens(4, 60), 0..4), any::<u8>()).boxed()
     }
     fn concretize(&self, g: &Self::Gen) -> CompileCase {
-        CompileCase { program: g.0.render(), input: g.1.clone(), bits: g.2, level: g.3, others: g.4.iter().map(|t| bf::render_raw(t)).collect(), cross_process: g.5 < 10, family: g.0.family().to_string() }
+        let chain = match &g.0 {
+            ProgAst::Chain(ch) => {
+                let (prefix, body, suffix) = ch.parts();
+                Some(Chain { prefix, body, suffix, rounds: ch.rounds() })
+            }
+            _ => None,
+        };
+        CompileCase { program: g.0.render(), input: g.1.clone(), bits: g.2, level: g.3, others: g.4.iter().map(|t| bf::render_raw(t)).collect(), cross_process: g.5 < 10, family: g.0.family().to_string(), chain }
     }
     fn check(&self, c: &CompileCase, stats: &mut Stats) -> Outcome {
         if !refmodel::balanced(&c.program) || c.others.iter().any(|o| !refmodel::balanced(o)) {
             return Outcome::Skip("unbalanced");
+        }
+        if let Some(ch) = &c.chain {
+            // growth with the round count first: it recognises an exponential family while compiling is still cheap
+            let (ch2, bits, level) = (ch.clone(), c.bits, c.level);
+            let mut scratch = Stats::default();
+            let g = verdict::in_child(std::time::Duration::from_secs(60), &mut scratch, move || with_cell!(bits, C, chain_growth::<C>(&ch2, level)));
+            match g {
+                Outcome::Pass { .. } => {
+                    for (k, v) in scratch.classes.iter() {
+                        stats.add(k, *v);
+                    }
+                    for (k, v) in scratch.maxima.iter() {
+                        stats.max(k, *v);
+                    }
+                }
+                Outcome::Inconclusive(w) if w == "timeout" => return Outcome::Fail(Fail { kind: "blow-up".into(), detail: format!("measuring the growth of a {} byte round body (sizes capped at 4 MiB per step) did not finish within 60 s at i{} -O{}", ch.body.len(), c.bits, c.level), cfg: None }),
+                o => return o,
+            }
         }
         let r = refmodel::run(&c.program, &c.input, c.bits, 60_000);
         let canon = if r.fate == Fate::Halt { Some(r.events.clone()) } else { None };
@@ -279,6 +360,26 @@ impl Property for C13 {
         let mut scratch = Stats::default();
         let mut budget = 1500u32;
         let mut c = c;
+        if let (Some(ch), "blow-up") = (c.chain.clone(), fail.kind.as_str()) {
+            // keep the chain structure: shrink the round body, then the prefix
+            let body = ddmin_program(ch.body.clone(), &mut budget, &mut |cand| {
+                let ch2 = Chain { body: cand.to_string(), ..ch.clone() };
+                let cc = CompileCase { program: ch2.program(ch2.rounds), chain: Some(ch2), ..c.clone() };
+                matches!(self.check(&cc, &mut scratch), Outcome::Fail(f) if f.kind == fail.kind)
+            });
+            let ch = Chain { body, ..ch };
+            let prefix = ddmin_program(ch.prefix.clone(), &mut budget, &mut |cand| {
+                let ch2 = Chain { prefix: cand.to_string(), ..ch.clone() };
+                let cc = CompileCase { program: ch2.program(ch2.rounds), chain: Some(ch2), ..c.clone() };
+                matches!(self.check(&cc, &mut scratch), Outcome::Fail(f) if f.kind == fail.kind)
+            });
+            let ch = Chain { prefix, ..ch };
+            c.program = ch.program(ch.rounds);
+            c.chain = Some(ch);
+            c.others = vec![];
+            return c;
+        }
+        c.chain = None;
         let prog = ddmin_program(c.program.clone(), &mut budget, &mut |cand| {
             let cc = CompileCase { program: cand.to_string(), ..c.clone() };
             matches!(self.check(&cc, &mut scratch), Outcome::Fail(f) if f.kind == fail.kind)
@@ -295,6 +396,6 @@ impl Property for C13 {
         vec![("nontrivial", 3_000 * q), ("three-or-more-temporaries", 2_000 * q), ("nesting-depth>=50", 1_000 * q), ("compared-across-two-fresh-processes", 300 * q), ("halting(executed 3x unlimited)", 5_000 * q)]
     }
     fn case_from_text(&self, program: &str, input: &[u8], bits: u32, sel: [u32; 5]) -> Option<CompileCase> {
-        Some(CompileCase { program: program.to_string(), input: input.to_vec(), bits, level: sel[0], others: vec!["+[->+<]".into()], cross_process: true, family: "text".into() })
+        Some(CompileCase { program: program.to_string(), input: input.to_vec(), bits, level: sel[0], others: vec!["+[->+<]".into()], cross_process: true, family: "text".into(), chain: None })
     }
 }
